@@ -23,6 +23,11 @@ CLAIMED["C14"] = ("§3 C14",
     "Decides the schedule/order-independence mechanisms: shared state of the parallel walks (mvs.buildList, modrequirements.readModGraph) is only touched under one mutex; every requirement handed to g.Require is enqueued on every path; par.Work/Cache/Queue internal discipline (guarded fields, publish-before-done, single flight, token pairing); Graph.Require is a max-merge and Graph.BuildList sorts what it takes from a map. It does not decide minimality/sufficiency of versions or SemVer precedence.",
     "sync/atomic semantics trusted; only internal/mod/mvs, internal/mod/modrequirements (readModGraph) and internal/par are analysed")
 
+CLAIMED["C18"] = ("§3 C18",
+    "typestate extraction (state-tracking automaton over go/cfg incl. tagged-switch edges), guard gates, constant folding of done() over the State enum, must-pass ordering, field-write confinement",
+    "Decides the controller's typestate relation (all Task.state assignments with their source-state guards lie within Waiting->Ready->Running->Terminated / Waiting->Terminated; received tasks are Running), that Ready requires isReady() which requires done() of every dependency and done() holds exactly for Terminated, that results are folded and the configuration recomputed before markReady and a failure returns without releasing dependants, that the task goroutine starts after updateTaskValue, writes only Task.err and always ends with the send on taskCh, and that checkCycle guards every initTasks path. It does not decide dependency discovery or equality of the final configuration.",
+    "dep.Visit and Runner implementations are not analysed; only package tools/flow")
+
 # properties not claimed (yet) -> reason
 NOT_APPLICABLE = {
     "C03": "value-level: the content is the cell values of the bound-simplification decision table over numbers; no shape rule separates a correct table from an off-by-one (DESIGN.md §4)",
